@@ -5,7 +5,8 @@ cd "$(dirname "$0")/.."
 rc=0
 for patch in selftest/benign/*.diff; do
   id=$(basename "$patch" .diff)
-  [ -n "${1:-}" ] && [[ "$id" != *"$1"* ]] && continue
+  [ -n "${1:-}" ] && [ -z "${BENIGN_EXACT:-}" ] && [[ "$id" != *"$1"* ]] && continue
+  [ -n "${1:-}" ] && [ -n "${BENIGN_EXACT:-}" ] && [ "$id" != "$1" ] && continue
   WT=$(mktemp -d /tmp/ben-XXXXXX)
   git -C /repo worktree add --detach -q "$WT" HEAD || exit 2
   [ -f /repo/Cargo.lock ] && cp /repo/Cargo.lock "$WT/"
